@@ -473,6 +473,15 @@ func c03Tables(c *Ctx) {
 					break
 				}
 				c03RunTable(c, srv, tables[i], reqs)
+				// thorough: every 4th table is also served in reverse request order on the SAME mux via a second table run
+				// sharing nothing but gldap's own state (route resolution must not depend on what was served before)
+				if i%4 == 0 {
+					rev := make([]creq, len(reqs))
+					for k := range reqs {
+						rev[k] = reqs[len(reqs)-1-k]
+					}
+					c03RunTable(c, srv, tables[i], rev)
+				}
 				if i == 40 || i == len(tables)-3 {
 					c.Sample(map[string]any{"table": tables[i].sig(), "requests": len(reqs) + 1})
 				}
